@@ -183,4 +183,51 @@ theorem insM_closed {one : Nat} : ∀ {p m : NExp}, isPoly one p = true → isMo
   | mul a b _ _ => intro m hp hm; exact insM_leaf (by intro x y h; cases h) hp hm
   | suc a _ => intro m hp hm; exact insM_leaf (by intro x y h; cases h) hp hm
 
+/-- a monomial or 0 -/
+def isMono0 (one : Nat) (m : NExp) : Bool := m == .num 0 || isMono one m
+
+theorem insM_zero_left (one : Nat) (m : NExp) (hm : ∀ x y, m ≠ .add x y) : insM one (.num 0) m = m := by
+  simp [insM]
+
+theorem isNF_of_isPoly {one : Nat} {p : NExp} (h : isPoly one p = true) : isNF one p = true := by
+  simp [isNF, h]
+
+theorem insM_nf {one : Nat} {p m : NExp} (hp : isNF one p = true) (hm : isMono0 one m = true) :
+    isNF one (insM one p m) = true := by
+  simp only [isMono0, Bool.or_eq_true, beq_iff_eq] at hm
+  rcases hm with rfl | hm
+  · rw [insM_zero]; exact hp
+  · simp only [isNF, Bool.or_eq_true, beq_iff_eq] at hp
+    rcases hp with rfl | hp
+    · rw [insM_zero_left one m (mono_not_add hm)]
+      exact isNF_of_isPoly (isPoly_of_isMono hm)
+    · exact isNF_of_isPoly (insM_closed hp hm).1
+
+theorem addP_nf {one : Nat} {p : NExp} (hp : isNF one p = true) :
+    ∀ {q : NExp}, isNF one q = true → isNF one (addP one p q) = true := by
+  intro q
+  induction q with
+  | add q1 m ih _ =>
+    intro hq
+    have hq' : isPoly one (.add q1 m) = true := by simpa [isNF] using hq
+    simp only [isPoly, Bool.and_eq_true, beq_iff_eq] at hq'
+    simp only [addP]
+    exact insM_nf (ih (isNF_of_isPoly hq'.1.1)) (by simp [isMono0, hq'.1.2])
+  | atom i s =>
+    intro hq
+    simp only [addP]
+    exact insM_nf hp (by simpa [isNF, isMono0, isPoly] using hq)
+  | num n =>
+    intro hq
+    simp only [addP]
+    exact insM_nf hp (by simpa [isNF, isMono0, isPoly] using hq)
+  | mul a b _ _ =>
+    intro hq
+    simp only [addP]
+    exact insM_nf hp (by simpa [isNF, isMono0, isPoly] using hq)
+  | suc a _ =>
+    intro hq
+    simp only [addP]
+    exact insM_nf hp (by simpa [isNF, isMono0, isPoly] using hq)
+
 end Holpy.C10
